@@ -98,6 +98,10 @@ bool index_read(zckCtx *zck, char *data, size_t size, size_t max_length) {
 
         /* Read uncompressed entry digest, if any */
         if (zck->has_uncompressed_source) {
+            if(length + zck->index.digest_size > max_length) {
+                set_fatal_error(zck, "Read past end of header");
+                return false;
+            }
             /* same size for digest as compressed */
             new->digest_uncompressed = zmalloc(zck->index.digest_size);
             if (!new->digest_uncompressed) {
